@@ -315,11 +315,25 @@ theorem rot_length (r : List Str) (k : Nat) : (rot r k).length = r.length := by
       simp only [List.length_cons, List.length_append, List.length_take, List.length_drop]
       omega
 
+/-- the cells of a record convert under the domains `D` -/
+def RowOKx (o : NumOracle F) (D : List Dom) (r' : List Str) : Prop :=
+  match D, r' with
+  | d0 :: ds, v0 :: vs => OutOK o d0 v0 ∧ InputsOK o ds vs
+  | _, _ => False
+
 /-- a record fits the domains `D`: its cells convert and it leaves the domains alone -/
 def RowOK (o : NumOracle F) (D : List Dom) (r' : List Str) : Prop :=
   match D, r' with
   | d0 :: ds, v0 :: vs => OutOK o d0 v0 ∧ InputsOK o ds vs ∧ Stable D r'
   | _, _ => False
+
+theorem rowOK_x (o : NumOracle F) (D : List Dom) (r' : List Str) (h : RowOK o D r') : RowOKx o D r' := by
+  cases D with
+  | nil => simp [RowOK] at h
+  | cons d ds =>
+    cases r' with
+    | nil => simp [RowOK] at h
+    | cons v vs => exact ⟨h.1, h.2.1⟩
 
 theorem skel_doms (cs : List Col) : cs.map (·.dom) = (skel cs).map (·.2) := by
   simp [skel]
